@@ -224,6 +224,11 @@ def run(ctx):
                             anchored = True
                 if not anchored:
                     problems.append(f"reads a file whose path is not anchored in the package ({norm(path_expr)[:30] if path_expr is not None else '?'}): its content is not part of the cache key")
+        # a DOM node (or a survey element) has ONE parent: handing the same object to a second document / tree
+        # detaches it from the first, so such objects must be built per call, never memoised
+        for n in walk_own(f.node):
+            if isinstance(n, ast.Call) and call_name(n) in ("node", "DetachableElement", "PatchedText", "Element", "createElement", "createTextNode", "parseString", "InstanceInfo"):
+                problems.append(f"builds an XML node ({call_name(n)}(...)): the memoised object would be shared by every document that appends it")
         ident_params = [p for p in params if p in ("survey", "self", "element", "context")]
         r2.check(not problems, f"{f.fq}", "memoised function only reads its parameters, immutable constants and files shipped with the package; no writes",
                  f.loc(), why_fail="; ".join(problems))
